@@ -11,15 +11,15 @@ from ..common import rng_for
 
 LEVEL = "exploration"
 NEEDS = ["harness", "harness:ovf"]
-RULE = ("all shapes with 1..A axes and lengths 1..5 (A=4 quick, 5 thorough), plus 41x41x41 and 17x17x17x17 (more than 2^16 elements) and seven shapes with 7-12 axes, each on the release and the "
+RULE = ("all shapes with 1..A axes and lengths 1..5 (A=4 quick, 5 thorough), plus 41x41x41 and 17x17x17x17 (more than 2^16 elements) seven shapes with 7-12 axes, and 2x(2^20+1) and 3x1025x1025 (sums of more than 2^20 cells, checked through exact digests), each on the release and the "
         "overflow-checked harness; per shape: iter_indices trace past exhaustion, iter_indices call histories mixing next() and nth(k) stepping past the end, get() on every valid index and on "
         "wrong-length/out-of-range indices, get_axis on every (axis, position) incl. axis d, d+1, usize::MAX and "
         "position len, len+1, usize::MAX, every view iterated 2*len+5 times with len() before each call, "
-        "iter_axis traces, sum(axis); get_mut() on the same queries; the same array reached through clone, clone_from into targets of another shape, from_iter, new_unchecked, from_zeros + fill, from_element + iter_mut, IndexMut fill - each probed with get on every query, a sum and a view; call histories that end in a consuming std adaptor: k x next() (k in 0,1,2,3,len/2,len-1,len,len+1) followed by count / last / fold / for_each / collect / nth(1) / step_by(2) / skip(1).count() / size_hint on every view iterator, on iter_indices and on iter_axis. A shape is non-trivial when it has >= 2 elements; distinct = distinct (shape, build).")
+        "iter_axis traces, sum(axis); get_mut() on the same queries; the same array reached through clone, clone_from into targets of another shape, from_iter, new_unchecked, from_zeros + fill, from_element + iter_mut, IndexMut fill - each probed with get on every query, a sum and a view; call histories that end in a consuming std adaptor: k x next() (k in 0,1,2,3,len/2,len-1,len,len+1) followed by count / last / fold / for_each / collect / nth(1) / nth(c) for c at the top of the usize range / step_by(2) / skip(1).count() / size_hint on every view iterator, on iter_indices and on iter_axis. A shape is non-trivial when it has >= 2 elements; distinct = distinct (shape, build).")
 ASSUMPTIONS = ["array contents are f64 flat positions < 2^53, so element identity is exact",
                "a panic is observed through catch_unwind in the harness (panic=unwind build)"]
 EXHAUSTIVE = {"quick": True, "thorough": True}
-FLOORS = {"quick": {"evaluations": 1000, "distinct_nontrivial": 700, "counts": {"views_iterated": 5000, "terminal_adaptor_calls": 200000, "history_probes": 10000, "get_mut_calls": 100000, "big_arrays": 4}},
+FLOORS = {"quick": {"evaluations": 1000, "distinct_nontrivial": 700, "counts": {"views_iterated": 5000, "terminal_adaptor_calls": 200000, "history_probes": 10000, "get_mut_calls": 100000, "big_arrays": 4, "giant_arrays": 2}},
           "thorough": {"evaluations": 6000, "distinct_nontrivial": 6000, "counts": {"views_iterated": 50000, "terminal_adaptor_calls": 1000000}}}
 
 
@@ -46,6 +46,9 @@ def plan(tier, seed):
         # and beyond five axes: 7 to 12 axes of length 1-2 (a fixed-size index or coordinate buffer somewhere would show here)
         plans.append({"name": "%s-many-axes" % kind, "kind": kind, "shapes": [[2] * 7, [2, 1, 2, 1, 2, 1, 2, 2], [2] * 9, [2] * 10, [1, 2] * 5 + [2], [2] * 12, [3, 2, 2, 2, 2, 2, 2, 2, 2, 3]],
                       "big": True})
+    # ... and two whose sums have more than 2^20 cells (release build only; get() and sum() through a digest)
+    plans.append({"name": "release-giant-a", "kind": "release", "shapes": [[2, 1048577]], "giant": True})
+    plans.append({"name": "release-giant-b", "kind": "release", "shapes": [[3, 1025, 1025]], "giant": True, "signed_giant": True})
     return plans
 
 
@@ -142,6 +145,13 @@ def check_terminals(S, what, terms, seq, bad, is_panic):
                 bad("panic:terminal:%s" % name, "%s: %d x next() then %s() panicked: %s" % (what, k, name, g["panic"]))
             elif g != e:
                 bad("terminal:%s" % name, "%s: %d x next() then %s() gave %r, expected %r (the iterator still owes %r)" % (what, k, name, g, e, rem[:12]))
+        nh = t.get("nth_huge")
+        if nh is not None:
+            S.count("terminal_adaptor_calls")
+            if is_panic(nh):
+                bad("panic:terminal:nth_huge", "%s: %d x next() then nth(~usize::MAX) panicked: %s" % (what, k, nh["panic"]))
+            elif any(pair != [None, None] for pair in nh):
+                bad("terminal:nth_huge", "%s: %d x next() then nth(c) for c in {MAX, MAX-1, MAX-2, MAX/2+1} followed by next() gave %r, expected None and None each time" % (what, k, nh))
         sh = t.get("size_hint")
         if is_panic(sh):
             bad("panic:terminal:size_hint", "%s: %d x next() then size_hint() panicked" % (what, k))
@@ -326,7 +336,49 @@ def check_shape(S, shape, res, kind, queries, nvalid, signed=False):
         S.count("sum_calls")
 
 
+def check_giant(S, p):
+    """Arrays whose SUMS have more than 2^20 cells (2 x (2^20+1), 3 x 1025 x 1025): sum along every axis, verified through an exact digest
+    (length, plain and position-weighted totals, head, tail) computed independently with numpy, plus get() at sampled indices."""
+    import numpy as np
+    rng = rng_for(0, "c19", p["name"], "giant")
+    for shape in p["shapes"]:
+        n = _prod(shape)
+        idx = np.arange(n, dtype=np.int64)
+        vals = np.where(idx % 2 == 1, -idx, idx) if p.get("signed_giant") else idx
+        arr = vals.reshape(shape)
+        queries = [[int(rng.randrange(m)) for m in shape] for _ in range(200)] + [[m - 1 for m in shape], [0] * len(shape)]
+        res = harness.run_all([{"op": "array", "shape": shape, "get": queries, "light": True, "signed": bool(p.get("signed_giant"))}], kind=p["kind"], timeout=900, _audit=False)[0]
+        S.count("giant_arrays")
+        tag = "%s %s (giant)" % ("x".join(map(str, shape)), p["kind"])
+        wit = {"replay": {"shape": shape, "kind": p["kind"], "giant": True}}
+        if "panic" in res or res.get("died") or "sum_digest" not in res:
+            S.viol("C19:panic:array-op", "[%s] %s" % (tag, str(res)[:300]), wit)
+            continue
+        for q, g_ in zip(queries, res["get"]):
+            if g_ != int(arr[tuple(q)]):
+                S.viol("C19:get:value", "[%s] get(%r) = %r, expected %d" % (tag, q, g_, int(arr[tuple(q)])), wit)
+                break
+        for v in res["sum_digest"]:
+            a, r = v["axis"], v["r"]
+            if isinstance(r, dict) and "panic" in r:
+                S.viol("C19:panic:sum", "[%s] sum(axis=%d) panicked: %s" % (tag, a, r["panic"]), wit)
+                continue
+            e = arr.sum(axis=a).reshape(-1)
+            w = (np.arange(len(e), dtype=np.int64) % 1000003) + 1
+            t0 = int(sum(int(x) for x in e)) if len(e) < 10 else int(e.astype(object).sum())
+            t1 = int((e.astype(object) * w.astype(object)).sum())
+            exp = {"shape": [m for j, m in enumerate(shape) if j != a], "len": len(e), "t0": str(t0), "t1": str(t1), "head": [int(x) for x in e[:8]], "tail": [int(x) for x in e[::-1][:8]]}
+            S.count("sum_calls")
+            if r != exp:
+                S.viol("C19:sum:value", "[%s] sum(axis=%d) digest %r, expected %r" % (tag, a, {k_: r.get(k_) for k_ in ("shape", "len", "t0", "t1", "head")}, {k_: exp[k_] for k_ in ("shape", "len", "t0", "t1", "head")}), wit)
+        S.case(key="%s|%s|giant" % (shape, p["kind"]), nontrivial=True)
+
+
 def shard(S, p):
+    if p.get("giant"):
+        return check_giant(S, p)
+    if "replay" in p and p["replay"].get("giant"):
+        return check_giant(S, {"name": "replay", "kind": p["replay"]["kind"], "shapes": [p["replay"]["shape"]]})
     if "replay" in p:
         w = p["replay"]
         p = {"kind": w["kind"], "shapes": [w["shape"]], "name": "replay", "signed": w.get("signed", False)}
